@@ -11,6 +11,7 @@ Line-protocol handler for the robustness work package (C05, C19); key `ROB`.
   operation of a fault-free line only).
 * `ROB err <tree> <nwrap>` — error algebra (`IsMalformed`, `errors.Is`, `Wrap`, `Optional`, `IsReadError`).
 * `ROB exit <mode> <tree>` — `shouldExit` of `NewReader`/`MakeReader`.
+* `ROB catalog <seq> <mode> <tree> <hasPages>` — the step after `DecodeCatalog` (`catalogStep`).
 * `ROB chain <src> <ctor> <reads>` — `sourceErrChecker`/`sourceAwareReader` under a scripted filter layer.
 * `ROB resolve <spec>` — `resolvePath`/`CycleCheck.step` over a scripted object graph.
 * `ROB sink <size> <sinkscript> <writes>` — `bufio.Writer` over a scripted failing sink.
@@ -136,6 +137,13 @@ def handleErr (tree nwrap : String) : String :=
     s!"{errClass e} mal={b01 (isMalformed e)} is={b01 (isN 0 e)}{b01 (isN 1 e)}{b01 (isN 2 e)}{b01 (isN 3 e)} " ++
     s!"loc={"|".intercalate (locOf e)} opt={opt.1}:{errClass opt.2} rd={b01 (isReadError e)}"
 
+def handleCatalog (seq mode tree pages : String) : String :=
+  match errOfWire tree with
+  | none => "bad-tree"
+  | some e =>
+    let r := catalogStep (seq == "1") (natOf mode) e (pages == "1")
+    s!"nil={b01 r.1} err={errClass r.2.1} rep={b01 r.2.2}"
+
 def handleExit (mode tree : String) : String :=
   match errOfWire tree with
   | none => "bad-tree"
@@ -255,6 +263,7 @@ def handle (args : List String) : String :=
   | ["scan", data, chunk, mode, k, short, filePos, ops] => handleScan data chunk mode k short filePos ops
   | ["err", tree, nwrap] => handleErr tree nwrap
   | ["exit", mode, tree] => handleExit mode tree
+  | ["catalog", seq, mode, tree, pages] => handleCatalog seq mode tree pages
   | ["chain", src, ctor, reads] => handleChain src ctor reads
   | ["resolve", spec] => handleResolve spec
   | ["sink", size, script, writes] => handleSink size script writes
